@@ -132,6 +132,10 @@ fn exact_of(kind: u8, seg: &[Cp], osu: bool) -> Exact {
         let n = (c.len() - 1) as f64;
         // flat pieces: every second difference <= 0.5 (length_squared <= 4 * 0.25^2):
         // control points within n^2/8 * 0.5 and curve within n(n-1)/8 * 0.5 of the chord
+        // Proved in exact arithmetic for the whole subdivision loop: coq/Properties/C17.v,
+        // C17_bezier_hausdorff with Kbez n = n (2n - 1) / 8 * (2 * 0.25) -- the first term below,
+        // both ways (vertex -> curve, curve -> polyline).  `slack` is the allowance for the
+        // binary32 evaluation, which the theorem (over the reals) does not cover.
         let b = 0.5 * n * (2.0 * n - 1.0) / 8.0 + slack;
         Exact {
             samples: (0..=nsamp).map(|i| bezier_eval(c, i as f64 / nsamp as f64)).collect(),
@@ -188,6 +192,10 @@ fn exact_of(kind: u8, seg: &[Cp], osu: bool) -> Exact {
                         // for `sub_points` *segments*, the code emits sub_points *points*, i.e. one segment
                         // less: the angle per segment grows by n/(n-1) <= 2, the sagitta by <= 4
                         // (+ the f32 quantisation of 1 - 0.1/r before acos)
+                        // Proved in exact arithmetic: C17_arc_hausdorff -- vertices ON the arc (bound_v is
+                        // rounding slack only), arc and chords within 4 * 0.1 = 0.4 of each other (sharp form
+                        // 4 tol - 2 tol^2 / r); C17_arc_tolerance_0_1_refuted: 0.38 is reached at r = 1, so
+                        // 0.1 itself would be a false alarm.  0.45 = 0.4 + 0.05 for the f32 quantisation above.
                         bound_v: sl,
                         bound_c: 0.45 + sl,
                         kind: if huge { "arc-radius>1e6" } else { "arc" },
@@ -224,6 +232,10 @@ fn exact_of(kind: u8, seg: &[Cp], osu: bool) -> Exact {
                     samples.push(catmull_eval(v1, v2, v3, v4, k as f64 / per as f64));
                 }
             }
+            // Proved in exact arithmetic: C17_catmull_span_hausdorff -- the vertices are ON the
+            // Catmull-Rom curve (bound_v is rounding slack only) and chord k stays within
+            // S / 8 / 2500 of the curve, S >= |P''(0)|, |P''(1)| (P'' is affine: `second` is that S);
+            // C17_catmull_simplification_hausdorff -- kept and full polyline within 6 px, both ways.
             let chord = second / 8.0 / 2500.0; // (1/50)^2 * sup|B''| / 8
             let simp = if osu { 6.0 } else { 0.0 }; // osu!: vertices within 6 px of the last kept one are dropped
             Exact { samples, bound_v: slack + 10.0 * EPS32 * 12.0 * mag, bound_c: chord + simp + slack + 10.0 * EPS32 * 12.0 * mag, kind: "catmull", checked: true, class: "" }
